@@ -148,10 +148,21 @@ struct Ctx {
 		vsnprintf(buf, sizeof buf, fmt, ap);
 		va_end(ap);
 		failed = true;
-		failmsg = buf;
+		failmsg.clear();
+		for (const char *p = buf; *p; p++) { // keep every message on one line (it goes into replay files and reports)
+			unsigned char ch = (unsigned char)*p;
+			if (ch == '\n')
+				failmsg += "\\n";
+			else if (ch < 0x20 || ch >= 0x7f) {
+				char e[8];
+				snprintf(e, sizeof e, "\\x%02x", ch);
+				failmsg += e;
+			} else
+				failmsg += (char)ch;
+		}
 		if (want_log) {
 			log += "FAIL: ";
-			log += buf;
+			log += failmsg;
 			log += '\n';
 		}
 	}
